@@ -318,10 +318,6 @@ func vc18sCase(t *rapid.T, st *vstat.Stats, tlsConf *tls.Config) {
 
 	// look checks what can be checked at any moment.
 	look := func() {
-		lim.counterCond.L.Lock()
-		cur := lim.counter.current
-		lim.counterCond.L.Unlock()
-
 		w.mu.Lock()
 		overshoot := w.overshoot
 		var twice string
@@ -334,10 +330,6 @@ func vc18sCase(t *rapid.T, st *vstat.Stats, tlsConf *tls.Config) {
 
 		if overshoot != "" {
 			fail("%s", overshoot)
-		}
-
-		if cur > uint64(stop) {
-			fail("counter.current = %d exceeds stop", cur)
 		}
 
 		if twice != "" {
@@ -468,9 +460,9 @@ func vc18sCase(t *rapid.T, st *vstat.Stats, tlsConf *tls.Config) {
 
 			if !soft(8*time.Millisecond, func() bool { return c.entered > 0 }) {
 				waiting = append(waiting, c)
-				lim.counterCond.L.Lock()
-				atStop := !lim.counter.isAccepting
-				lim.counterCond.L.Unlock()
+				w.mu.Lock()
+				atStop := w.live >= stop
+				w.mu.Unlock()
 				if atStop {
 					classes["at-stop-with-client-waiting"] = true
 				}
@@ -542,39 +534,28 @@ func vc18sCase(t *rapid.T, st *vstat.Stats, tlsConf *tls.Config) {
 		t.Logf("slow shutdown %s: trace %s", d, strings.Join(trace, "; "))
 	}
 
-	zero := func() (cur uint64, acc bool, live int) {
-		lim.counterCond.L.Lock()
-		cur, acc = lim.counter.current, lim.counter.isAccepting
-		lim.counterCond.L.Unlock()
-
+	live := func() (n int) {
 		w.mu.Lock()
-		live = w.live
-		w.mu.Unlock()
+		defer w.mu.Unlock()
 
-		return cur, acc, live
+		return w.live
 	}
 
 	deadline := time.Now().Add(vc18SettleTimeout)
 	for {
 		look()
-		cur, acc, live := zero()
-		if cur == 0 && acc && live == 0 {
-			break
-		}
 
+		// Only when no goroutine of a server or of the limiter is left can
+		// nothing change any more; the limiter's own counter, if it still can
+		// be read, is then compared with what really is open.
 		quiet, sample := vc18sQuiet()
 		if quiet {
-			// No goroutine is left that could still change anything.
-			cur, acc, live = zero()
-			if cur == 0 && acc && live == 0 {
-				break
-			}
+			n := live()
 
 			// A server may leave a connection it has accepted open for good
 			// (the DoT accept loop is not in the server's wait group, so
 			// Shutdown can release the worker pool under it).  That is the
-			// server's business, not the limiter's: what the property asks
-			// is that the limiter's counter equals what really is still open.
+			// server's business, not the limiter's.
 			w.mu.Lock()
 			left := 0
 			for _, nc := range w.accepted {
@@ -584,9 +565,16 @@ func vc18sCase(t *rapid.T, st *vstat.Stats, tlsConf *tls.Config) {
 			}
 			w.mu.Unlock()
 
-			if int(cur) != live || live != left || (cur == 0 && !acc) {
-				fail("after both servers were shut down and no server or limiter goroutine is left: counter.current = %d, isAccepting = %t, but open + pending under the limiter = %d, of which accepted and never closed: %d",
-					cur, acc, live, left)
+			if n != left {
+				fail("harness: open + pending under the limiter = %d, accepted and never closed %d, with no server goroutine left", n, left)
+			}
+
+			if cur, acc, ok := vc18Peek(lim); ok {
+				classes["counter-read"] = true
+				if cur != n || (cur == 0 && !acc) {
+					fail("after both servers were shut down and no server or limiter goroutine is left: counter.current = %d, isAccepting = %t, but open + pending under the limiter = %d, of which accepted and never closed: %d",
+						cur, acc, n, left)
+				}
 			}
 
 			if left > 0 {
@@ -597,7 +585,7 @@ func vc18sCase(t *rapid.T, st *vstat.Stats, tlsConf *tls.Config) {
 		}
 
 		if time.Now().After(deadline) {
-			vc18Inconclusive(t, "servers still busy %s after shutdown (counter.current %d, open + pending %d), e.g.\n%s", vc18SettleTimeout, cur, live, sample)
+			vc18Inconclusive(t, "servers still busy %s after shutdown (open + pending %d), e.g.\n%s", vc18SettleTimeout, live(), sample)
 		}
 
 		time.Sleep(time.Millisecond)
